@@ -287,8 +287,13 @@ func (tr *gtTr) stmt(s ast.Stmt, env *venv, next cont) gnode {
 			vals = append(vals, ex{code: n, typ: t})
 		}
 		for i, r := range x.Results {
-			v := tr.expr(r, env)
 			rt := tr.fn.results[i]
+			var v ex
+			if rt.isErr && isIdent(unparen(r), "nil") && env.lookup("nil") == nil {
+				v = ex{code: "false", typ: tErr}
+			} else {
+				v = tr.expr(r, env)
+			}
 			if rt.kind == kValue {
 				v = tr.toValue(v, "return")
 			}
@@ -629,6 +634,62 @@ func (tr *gtTr) commaOk(vName, okName string, rhs ast.Expr, declare bool, env *v
 			okv.binds = nil
 			return tr.bindNew(e, okName, okv, declOk, next)
 		})
+	case *ast.CallExpr:
+		if pkg, name, ok := tr.libCall(r, env); ok {
+			var fn, typ string
+			var t1, t2 *gtype
+			switch {
+			case pkg == "unicode/utf8" && name == "DecodeRuneInString" && len(r.Args) == 1:
+				// (rune, width) of the first rune of the string: the parameter f_utf8_DecodeRuneInString
+				fn, typ, t1, t2 = "f_utf8_DecodeRuneInString", "bstr -> Z * Z", basicInts["rune"], basicInts["int"]
+			case pkg == "strconv" && name == "ParseInt" && len(r.Args) == 3:
+				// (value, err != nil): the parameter f_strconv_ParseInt
+				fn, typ, t1, t2 = "f_strconv_ParseInt", "bstr -> Z -> Z -> Z * bool", basicInts["int64"], tErr
+			default:
+				gtFail("two-valued library call %s.%s is not in the fixed list", pkg, name)
+			}
+			args, binds := tr.args(r.Args, env)
+			parts := []string{fn}
+			for i, a := range args {
+				want := kInt
+				if i == 0 {
+					want = kString
+				}
+				if a.typ.kind != want {
+					gtFail("%s.%s: argument %d is a %s", pkg, name, i+1, a.typ.name)
+				}
+				parts = append(parts, a.code)
+			}
+			tr.fn.addAbstract(gtAbstract{name: fn, typ: typ})
+			n1, n2 := "_", "_"
+			if vName != "_" {
+				n1 = tr.newName(vName)
+			}
+			if okName != "_" {
+				n2 = tr.newName(okName)
+			}
+			bindOne := func(goName, coq string, t *gtype, decl bool) {
+				if goName == "_" {
+					return
+				}
+				if decl {
+					env.declare(goName, &gvar{coq: coq, typ: t, goName: goName})
+					return
+				}
+				v := env.lookup(goName)
+				if v == nil || v.typ.kind != t.kind || v.typ.kind == kStruct || v.ptr || v.banned != "" || v.indexOf != nil {
+					gtFail("two-valued assignment: %s cannot receive a %s", goName, t.name)
+				}
+				if v.typ.kind == kInt && (v.typ.bits != t.bits || v.typ.signed != t.signed) {
+					gtFail("two-valued assignment: mismatched integer types %s and %s", v.typ.name, t.name)
+				}
+				env.assign(goName, coq)
+			}
+			bindOne(vName, n1, t1, declV)
+			bindOne(okName, n2, t2, declOk)
+			return &nLet{name: "'(" + n1 + ", " + n2 + ")", val: ex{binds: binds, code: "(" + strings.Join(parts, " ") + ")", typ: t1}, body: next(env)}
+		}
+		gtFail("two-valued assignment from %s is outside the subset", gtExprText(rhs))
 	case *ast.TypeAssertExpr:
 		if r.Type == nil {
 			gtFail("x.(type) outside a type switch")
